@@ -1669,3 +1669,40 @@ fn iterator_invalidation_cases(thorough: bool, f: &mut dyn FnMut(Case)) {
         }
     }
 }
+
+// ---- (n) multi-byte adjacency: token × 0-3 ASCII bytes × multi-byte character (source text) ---------------
+
+const KEYWORDS: &[&str] = &[
+    "and", "or", "not", "if", "then", "else", "else if", "match", "switch", "for", "in", "while", "until", "loop", "break", "continue", "return", "yield", "throw", "try", "catch", "finally",
+    "import", "from", "as", "export", "let", "true", "false", "null", "self", "debug", "assert", "0x", "0x1", "0b", "0b1", "0o", "0o7", "1e", "1e+", "1.", "1.5e", "r'", "r#'", "'\\u{", "'\\x", "'\\",
+    "'{", "'{x:", "'{x:*<", "#", "#-", "-#", "#!", "@", "@meta", "@test", "_", "x", "x.", "x?", "x..", "x..=", "|x|", "|", "->", "=>", "...", "x...",
+];
+
+fn multibyte_adjacency_cases(vocab: &[String], f: &mut dyn FnMut(Case)) {
+    let mut tokens: BTreeSet<String> = KEYWORDS.iter().map(|k| k.to_string()).collect();
+    for t in vocab {
+        // operators / punctuation of the corpus (identifiers and literals behave like `x` / `1`)
+        if t.is_ascii() && !t.is_empty() && t.len() <= 4 && !t.chars().any(|c| c.is_alphanumeric() || c.is_whitespace()) {
+            tokens.insert(t.clone());
+        }
+    }
+    let seps = ["", " ", "  ", "   ", "'", " '", "  '", "\"", " \"", "(", " (", "((", "\t", "\n", "\n  ", "#", " #", " #-", "\\\n", "_", "0", ".", "..", ", ", "= ", "x", " x", "'{"];
+    let mbs = ["\u{fc}", "\u{65e5}", "\u{1f44b}", "e\u{301}", "\u{a0}", "\u{2028}", "\u{feff}"];
+    let contexts = ["A", "x = if c then 1 A", "f = ||\n  A", "'{A}'"];
+    for t in &tokens {
+        for sep in seps {
+            for mb in mbs {
+                let closer = if sep.ends_with('\'') { "'" } else if sep.ends_with('"') { "\"" } else if sep.ends_with("'{") { "}'" } else { "" };
+                let fwd = format!("{}{}{}{}", t, sep, mb, closer);
+                let back = format!("{}{}{}{}", mb, closer, sep, t);
+                for ctx in contexts {
+                    for body in [&fwd, &back] {
+                        let mut text = ctx.replace('A', body);
+                        text.push('\n');
+                        f(compile_case(text, "multibyte-adjacency"));
+                    }
+                }
+            }
+        }
+    }
+}
